@@ -27,6 +27,45 @@ def run_mutant(m, props=None, tier='quick'):
     finally:
         shutil.rmtree(base, ignore_errors=True)
 
+def run_seeded(name, props=None, tier='quick'):
+    """apply an independently produced change (/verif/seeded/<name>/patch.diff) to a scratch copy and run the checks"""
+    d = os.path.join(VERIF, 'seeded', name)
+    meta = json.load(open(os.path.join(d, 'meta.json')))
+    base = tempfile.mkdtemp(prefix='vtmut_', dir=os.environ.get('TMPDIR', '/dev/shm'))
+    try:
+        shutil.copytree(os.path.join('/repo', 'pytenet'), os.path.join(base, 'pytenet'), ignore=shutil.ignore_patterns('__pycache__'))
+        r = subprocess.run(['patch', '-p1', '-s', '-d', base, '-i', os.path.join(d, 'patch.diff')], capture_output=True, text=True)
+        if r.returncode != 0:
+            return dict(id=name, error='patch does not apply: ' + (r.stdout + r.stderr)[-200:])
+        out = {}
+        for pid in (props or [meta['property']]):
+            env = dict(os.environ, VT_REPO=base, VT_NO_EVIDENCE='1')
+            rr = subprocess.run(['python3-vt', '-m', 'vt.cli', 'check', pid, '--tier', tier], cwd=VERIF, env=env, capture_output=True, text=True)
+            viol = [l for l in rr.stdout.splitlines() if l.startswith('VIOLATION')]
+            out[pid] = dict(rc=rr.returncode, violations=[' '.join(v.split()[3:])[:120] for v in viol][:6])
+        return dict(id=name, expect='violation', results=out)
+    finally:
+        shutil.rmtree(base, ignore_errors=True)
+
+
+def for_property(pid):
+    """mutation self-test of one property (thorough tier): own seed mutants + independently produced changes"""
+    res = []
+    for m in M:
+        if pid in m['props']:
+            r = run_mutant(m, props=[pid])
+            r['caught'] = r.get('results', {}).get(pid, {}).get('rc') == 1
+            res.append(r)
+    sd = os.path.join(VERIF, 'seeded')
+    for name in sorted(os.listdir(sd)) if os.path.isdir(sd) else []:
+        mp = os.path.join(sd, name, 'meta.json')
+        if os.path.exists(mp) and json.load(open(mp)).get('property') == pid:
+            r = run_seeded(name, [pid])
+            r['caught'] = r.get('results', {}).get(pid, {}).get('rc') == 1
+            res.append(r)
+    return res
+
+
 def main():
     ids = sys.argv[1:]
     res = []
